@@ -47,7 +47,7 @@ func init() {
 		RlimitAS: 4 << 30,
 		Floors: func(t string) map[string]int64 {
 			return map[string]int64{"wkb.truncated": 1000, "wkb.bitflip": 1000, "wkb.count_inflated": 1000, "wkb.bad_type": 500, "wkb.bad_order": 500, "wkb.deep_nesting": 5, "wkb.deep_nesting_ending_in_a_wrong_member": 50, "wkb.random": 500, "wkb.long_count_bitflip": 1000, "wkb.long_count_wrapped": 500,
-				"hex.malformed": 200, "json.grammar": 1000, "json.handbuilt": 200, "decoded.ok.refixpoint": 1000, "json.deep": 3}
+				"hex.malformed": 200, "json.grammar": 1000, "json.handbuilt": 200, "handbuilt.typed_slice_at_some_level": 100, "decoded.ok.refixpoint": 1000, "json.deep": 3}
 		},
 	})
 }
@@ -880,8 +880,50 @@ func (e *env) jsonFamily(r *gen.R) {
 		}
 		return r.Range(-180, 180)
 	}
+	// typed slices, as ToGeoJSON builds them, mixed in at any level (the decoder may or may not
+	// accept them; if it does, the result must still be well-formed and re-encodable)
+	fnum := func() float64 {
+		switch r.Intn(8) {
+		case 0:
+			return math.NaN()
+		case 1:
+			return math.Inf(1 - 2*r.Intn(2))
+		case 2:
+			return math.Copysign(0, -1)
+		}
+		return r.Range(-180, 180)
+	}
+	var typed func(depth int) interface{}
+	typed = func(depth int) interface{} {
+		n := r.IntRange(1, 3)
+		switch depth {
+		case 0:
+			return []float64{fnum(), fnum()}
+		case 1:
+			o := make([][]float64, n)
+			for i := range o {
+				o[i] = typed(0).([]float64)
+			}
+			return o
+		case 2:
+			o := make([][][]float64, n)
+			for i := range o {
+				o[i] = typed(1).([][]float64)
+			}
+			return o
+		}
+		o := make([][][][]float64, n)
+		for i := range o {
+			o[i] = typed(2).([][][]float64)
+		}
+		return o
+	}
 	var tree func(depth int) interface{}
 	tree = func(depth int) interface{} {
+		if r.Chance(0.12) {
+			c.Count("handbuilt.typed_slice_at_some_level")
+			return typed(depth)
+		}
 		if depth == 0 {
 			return []interface{}{num(), num()}
 		}
